@@ -1646,13 +1646,19 @@ impl IQLEngine {
         // Execute main rules in dependency order (topological sort)
         let execution_order = self.topological_sort_ir_nodes(&rule_heads);
         let mut last_result: Vec<Tuple> = Vec::new();
+        let final_node = execution_order.last().copied();
 
         for &i in &execution_order {
             let head_name = rule_heads.get(i).cloned().unwrap_or_default();
 
             // Create fresh CodeGenerator for each rule (avoids timely state issues)
             let mut codegen = CodeGenerator::new();
-            codegen.set_max_result_rows(self.max_result_rows);
+            // The row limit truncates the returned answer only. Intermediate
+            // relations feed later rules and must stay complete: a truncated
+            // relation under negation or aggregation yields wrong rows.
+            if Some(i) == final_node {
+                codegen.set_max_result_rows(self.max_result_rows);
+            }
             // Set per-rule semiring type from boolean specialization
             let semiring = self
                 .semiring_annotations
@@ -1734,7 +1740,6 @@ impl IQLEngine {
             let head_name = rule_heads.get(i).cloned().unwrap_or_default();
 
             let mut codegen = CodeGenerator::new();
-            codegen.set_max_result_rows(self.max_result_rows);
             // Set per-rule semiring type from boolean specialization
             let semiring = self
                 .semiring_annotations
@@ -1752,9 +1757,14 @@ impl IQLEngine {
                 codegen.add_input(rel.clone(), data.clone());
             }
 
+            // Later rules read the complete relation; only the reported copy
+            // is cut to the row limit.
             let rule_tuples = codegen.execute(ir)?;
-            let rule_results: Vec<(i32, i32)> =
+            let mut rule_results: Vec<(i32, i32)> =
                 rule_tuples.iter().filter_map(Tuple::to_pair).collect();
+            if self.max_result_rows > 0 {
+                rule_results.truncate(self.max_result_rows);
+            }
             results.insert(i, rule_results);
 
             // Store for subsequent rules
